@@ -275,6 +275,51 @@ func runC11(c *Ctx) {
 					}
 				}
 			})
+			if !read && !moved {
+				// the move may be a helper's whole job: absorb(dst, src) { if es := src.Errors(); es != nil { dst.AddErrorList(es) } }
+				eachInstr(fn, func(x ssa.Instruction) {
+					h := staticCallee(x)
+					if h == nil || h.Blocks == nil || funcPkgPath(h) != modPath {
+						return
+					}
+					src, dst, okH := errorsMoveHelper(h, rowEC, tabEC)
+					cc := callCommon(x)
+					if !okH || src >= len(cc.Args) || dst >= len(cc.Args) {
+						return
+					}
+					sv, dv := cc.Args[src], cc.Args[dst]
+					if mi, isMI := sv.(*ssa.MakeInterface); isMI {
+						sv = mi.X
+					}
+					srcOK := sv == in.rowV
+					if fl, b := loadedField(sv); fl == rowEC && b == in.rowV {
+						srcOK = true
+					}
+					if mi, isMI := dv.(*ssa.MakeInterface); isMI {
+						dv = mi.X
+					}
+					dstOK := dv == in.table
+					if fl, b := loadedField(dv); fl == tabEC && b == in.table {
+						dstOK = true
+					}
+					if !srcOK || !dstOK {
+						return
+					}
+					read, moved = true, true
+					if after[x] {
+						r.Check("R11.4", FuncName(fn), "row errors read after the divert", x.Pos(), false, "by then the row's container is the table's: the table's list would be appended to itself")
+					}
+					base := map[ssa.Value]bool{}
+					for _, cf := range dominatingConds(in.at.Block()) {
+						base[cf.Cond] = true
+					}
+					for _, cf := range dominatingConds(x.Block()) {
+						if !base[cf.Cond] {
+							r.Check("R11.4", FuncName(fn), "moving the row's errors to the table is conditional on something other than their presence", x.Pos(), false, cf.Cond.String())
+						}
+					}
+				})
+			}
 			r.Check("R11.4", FuncName(fn), "a pre-built row's errors are read and added to the table before the divert", div.Pos(), read && moved, fmt.Sprintf("Errors() read: %v, AddErrorList(table, those): %v", read, moved))
 		}
 	}
@@ -366,6 +411,30 @@ func runC11(c *Ctx) {
 						}
 						if all {
 							return true, "at every call of this helper the row's container has already been set to the table's", true
+						}
+					}
+				}
+				// the row is kept in a small carrier struct (what one pass needs, grouped): it is whatever row was
+				// stored there, judged where it was stored
+				{
+					var cf *types.Var
+					if fl, _ := loadedField(b); fl != nil {
+						cf = fl
+					} else if fv, isFV := b.(*ssa.Field); isFV {
+						cf = fieldOfField(fv)
+					}
+					if cf != nil && depth < 3 {
+						if own := c.ownerOf(cf); own != "ATable" && own != "Row" && own != "ErrorContainer" && own != "Cell" && own != "column" {
+							stores := c.StoresTo(cf)
+							all := len(stores) > 0
+							for _, fs := range stores {
+								if okUp, _, _ := acceptField(fs.Fn, f, fs.St.Val, fs.St, depth+1); !okUp {
+									all = false
+								}
+							}
+							if all {
+								return true, "the row is a field of a carrier struct; every row stored there is known to be in a table", true
+							}
 						}
 					}
 				}
@@ -1049,4 +1118,81 @@ func divertHelperCall(c *Ctx, fn *ssa.Function, rowV, table ssa.Value, rowEC, ta
 		}
 	})
 	return rh, rrow, rtab, rst
+}
+
+// errorsMoveHelper: h does nothing to its source but read its errors (src.Errors(), src a parameter: an error
+// source, a row or a container) and hands exactly those to AddErrorList on its destination parameter, on no
+// condition other than their presence. Returns the parameter positions.
+func errorsMoveHelper(h *ssa.Function, rowEC, tabEC *types.Var) (src, dst int, ok bool) {
+	parIdx := func(v ssa.Value) int {
+		if mi, isMI := v.(*ssa.MakeInterface); isMI {
+			v = mi.X
+		}
+		if fl, b := loadedField(v); fl != nil && (fl == rowEC || fl == tabEC) {
+			v = b
+		}
+		for i, p := range h.Params {
+			if v == ssa.Value(p) {
+				return i
+			}
+		}
+		return -1
+	}
+	src, dst = -1, -1
+	var errsCall ssa.Value
+	var addAt ssa.Instruction
+	nErr, nAdd := 0, 0
+	eachInstr(h, func(x ssa.Instruction) {
+		cc := callCommon(x)
+		if cc == nil {
+			return
+		}
+		if cc.IsInvoke() {
+			if cc.Method.Name() == "Errors" && len(cc.Args) == 0 {
+				nErr++
+				src = parIdx(cc.Value)
+				errsCall, _ = x.(ssa.Value)
+			}
+			return
+		}
+		f := cc.StaticCallee()
+		if f == nil || f.Signature.Recv() == nil || len(cc.Args) == 0 {
+			return
+		}
+		switch f.Name() {
+		case "Errors":
+			nErr++
+			src = parIdx(cc.Args[0])
+			errsCall, _ = x.(ssa.Value)
+		case "AddErrorList":
+			nAdd++
+			dst = parIdx(cc.Args[0])
+			addAt = x
+		}
+	})
+	if nErr != 1 || nAdd != 1 || src < 0 || dst < 0 || src == dst || errsCall == nil || addAt == nil {
+		return -1, -1, false
+	}
+	if callCommon(addAt).Args[1] != errsCall {
+		return -1, -1, false
+	}
+	for _, cf := range dominatingConds(addAt.Block()) {
+		e, _, isNilT := nilTest(cf.Cond)
+		if !isNilT || e != errsCall {
+			return -1, -1, false
+		}
+	}
+	// nothing else of consequence happens in the helper: no other calls, no stores
+	clean := true
+	eachInstr(h, func(x ssa.Instruction) {
+		switch y := x.(type) {
+		case *ssa.Store, *ssa.Go, *ssa.Defer, *ssa.MapUpdate, *ssa.Send:
+			clean = false
+		case *ssa.Call:
+			if ssa.Value(y) != errsCall && ssa.Instruction(y) != addAt {
+				clean = false
+			}
+		}
+	})
+	return src, dst, clean
 }
